@@ -457,7 +457,21 @@ func (r *renderer) dir(d *Dir, depth int) {
 // implicit walk (a URL followed by hoisted methods is left alone by the
 // caller through Dir.NoStyleParens).
 func (r *renderer) styleParensOK(d *Dir) bool {
-	return d.Kw != "MACRO"
+	if d.Kw == "MACRO" {
+		return false
+	}
+	// an INCLUDE inside parentheses is outside the INCLUDE property's domain
+	// (the included file ends while a parenthesis is open)
+	return !containsInclude(d)
+}
+
+func containsInclude(d *Dir) bool {
+	for _, c := range d.Children {
+		if c.Kw == "INCLUDE" || containsInclude(c) {
+			return true
+		}
+	}
+	return false
 }
 
 func (r *renderer) bodyIndent(depth int) string {
